@@ -108,6 +108,8 @@ func TestVerif_C05(t *testing.T) {
 	defer r.Finish()
 	r.Rule("case = bare dispatcher with 2-3 (sometimes 8) real workers running worker.run, 1-4 external pushers, tokens that re-push themselves through the local ring, a burst token fanning out 300-700 pushes (local ring overflow, global ring growth past 64/128/256/512), optional close racing the pushes, k hot noise sites in ready_queue.go; oracle = token ledger (each push taken exactly once), in-turn CAS word per token, structural invariants under the queue's own locks at quiescence (rings empty, sizeAtomic==size, globalCount==global.size, all workers parked), workers exit after close; non-trivial = steals or local-ring overflow or global growth actually happened (measured from ring sizes / counters); distinct by knobs+seed")
 	rng := r.Rand(5)
+	// local-ring overflow with every sibling parked: see c05_spill_verif_test.go
+	c05RunSpillWake(r, r.Rand(55), r.N(24, 600))
 	n := r.N(96, 3000)
 	for c := 0; c < n; c++ {
 		k := c05Knobs{
